@@ -285,4 +285,1461 @@ theorem sendW_sendsOf {j : Job} (wf : j.WF) (b r k : Nat) (e : Elem Nat) :
   | flushBatch => simp [sendsOf, sendW]
 
 
+/-! ## the three kinds of real steps -/
+
+def sendState (s : State) (b r : Nat) (sd : Send) (rest : List Send) : State :=
+  { proc := set2 s.proc b r { s.proc b r with pending := rest }
+    chan := set2 s.chan sd.blk sd.rep (s.chan sd.blk sd.rep ++ [⟨r, sd.elem⟩]) }
+
+def srcState (j : Job) (s : State) (b r : Nat) (e : Elem Nat) (es : List (Elem Nat)) : State :=
+  { s with proc := set2 s.proc b r (emit j b r { s.proc b r with script := es } [e]) }
+
+def recvState (j : Job) (s : State) (b r : Nat) (m : Msg) (ms : List Msg) : State :=
+  { proc := set2 s.proc b r (emit j b r
+      { s.proc b r with start := (Start.step (s.proc b r).start (.elem m.sender m.elem)).1 }
+      (Start.step (s.proc b r).start (.elem m.sender m.elem)).2)
+    chan := set2 s.chan b r ms }
+
+inductive StepCase (j : Job) (s : State) (b r : Nat) : State → Prop where
+  | idle : ¬ enabled j s b r → StepCase j s b r s
+  | send (sd : Send) (rest : List Send) : enabled j s b r → j.valid b r →
+      (s.proc b r).pending = sd :: rest → (s.chan sd.blk sd.rep).length < j.cap →
+      StepCase j s b r (sendState s b r sd rest)
+  | src (e : Elem Nat) (es : List (Elem Nat)) : enabled j s b r → j.valid b r →
+      (s.proc b r).pending = [] → j.prev b = none → (s.proc b r).script = e :: es →
+      StepCase j s b r (srcState j s b r e es)
+  | recv (m : Msg) (ms : List Msg) (pb : Nat) : enabled j s b r → j.valid b r →
+      (s.proc b r).pending = [] → j.prev b = some pb → (s.proc b r).start.missingTerm ≠ 0 →
+      s.chan b r = m :: ms → StepCase j s b r (recvState j s b r m ms)
+
+theorem step_case (j : Job) (s : State) (b r : Nat) : StepCase j s b r (step j s b r) := by
+  unfold step
+  by_cases hv : j.valid b r
+  · simp only [hv, if_true]
+    cases hp : (s.proc b r).pending with
+    | cons sd rest =>
+      simp only
+      by_cases hl : (s.chan sd.blk sd.rep).length < j.cap
+      · simp only [hl, if_true]
+        exact .send sd rest ⟨hv, by simp [status, hp, hl]⟩ hv hp hl
+      · simp only [hl, if_false]
+        exact .idle (by simp [enabled, status, hp, hl])
+    | nil =>
+      simp only
+      by_cases hd : done j b (s.proc b r) = true
+      · simp only [hd, if_true]
+        exact .idle (by simp [enabled, status, hp, hd])
+      · simp only [hd]
+        cases hpr : j.prev b with
+        | none =>
+          simp only
+          cases hs : (s.proc b r).script with
+          | nil => simp [done, hpr, hs] at hd
+          | cons e es =>
+            exact .src e es ⟨hv, by simp [status, hp, hd, hpr]⟩ hv hp hpr hs
+        | some pb =>
+          simp only
+          cases hc : s.chan b r with
+          | nil => exact .idle (by simp [enabled, status, hp, hd, hpr, hc])
+          | cons m ms =>
+            have hmt : (s.proc b r).start.missingTerm ≠ 0 := by
+              intro h; simp [done, hpr, h] at hd
+            exact .recv m ms pb ⟨hv, by simp [status, hp, hd, hpr, hc]⟩ hv hp hpr hmt hc
+  · simp only [hv, if_false]
+    exact .idle (fun h => hv h.1)
+
+theorem step_idle {j : Job} {s : State} {b r : Nat} (h : ¬ enabled j s b r) : step j s b r = s := by
+  have hc := step_case j s b r
+  generalize step j s b r = s' at hc
+  cases hc with
+  | idle _ => rfl
+  | send _ _ he => exact absurd he h
+  | src _ _ he => exact absurd he h
+  | recv _ _ _ he => exact absurd he h
+
+/-! ## the invariant -/
+
+def ScriptOk : List (Elem Nat) → Prop
+  | [] => True
+  | [e] => e = .term
+  | e :: e' :: rest => e ≠ .term ∧ ScriptOk (e' :: rest)
+
+theorem scriptOk_init (l : List (Elem Nat)) (h : ∀ e ∈ l, e ≠ Elem.term) : ScriptOk (l ++ [.far, .term]) := by
+  induction l with
+  | nil => simp [ScriptOk]
+  | cons x l ih =>
+    have ih := ih (fun e he => h e (by simp [he]))
+    cases l with
+    | nil => exact ⟨h x (by simp), ih⟩
+    | cons y l => exact ⟨h x (by simp), ih⟩
+
+def countTerm (l : List Msg) : Nat := l.countP fun m => decide (m.elem = .term)
+
+/-- how many `Terminate`s producer `(pb, q)` still has to send to consumer `(c, i)` -/
+def owes (j : Job) (s : State) (pb q c i : Nat) : Nat :=
+  if done j pb (s.proc pb q) then tcount c i (s.proc pb q).pending else 1
+
+/-- every message in the channel comes from a real producer and, unless it is a `Terminate`, is
+    followed by the `Terminate` of its producer (in the channel or still to be sent) -/
+def ChanOk (n : Nat) (ow : Nat → Nat) : List Msg → Prop
+  | [] => True
+  | m :: rest => m.sender < n ∧
+      (m.elem = .term ∨ 1 ≤ ow m.sender ∨ ∃ m' ∈ rest, m'.sender = m.sender ∧ m'.elem = .term) ∧
+      ChanOk n ow rest
+
+theorem chanOk_append {n : Nat} {ow ow' : Nat → Nat} {q0 : Nat} {e : Elem Nat} (l : List Msg)
+    (h : ChanOk n ow l) (hq : q0 < n)
+    (hmono : ∀ q, 1 ≤ ow q → 1 ≤ ow' q ∨ (q = q0 ∧ e = .term))
+    (hnew : e = .term ∨ 1 ≤ ow' q0) : ChanOk n ow' (l ++ [⟨q0, e⟩]) := by
+  induction l with
+  | nil => exact ⟨hq, by rcases hnew with h | h <;> simp [h], trivial⟩
+  | cons m l ih =>
+    obtain ⟨h1, h2, h3⟩ := h
+    refine ⟨h1, ?_, ih h3⟩
+    rcases h2 with h2 | h2 | ⟨m', hm', h2⟩
+    · exact .inl h2
+    · rcases hmono _ h2 with h | ⟨h, he⟩
+      · exact .inr (.inl h)
+      · exact .inr (.inr ⟨⟨q0, e⟩, by simp, h.symm, he⟩)
+    · exact .inr (.inr ⟨m', by simp [hm'], h2⟩)
+
+theorem chanOk_mono {n : Nat} {ow ow' : Nat → Nat} (l : List Msg)
+    (h : ChanOk n ow l) (hmono : ∀ q, q < n → 1 ≤ ow q → 1 ≤ ow' q) : ChanOk n ow' l := by
+  induction l with
+  | nil => trivial
+  | cons m l ih =>
+    obtain ⟨h1, h2, h3⟩ := h
+    refine ⟨h1, ?_, ih h3⟩
+    rcases h2 with h2 | h2 | h2
+    · exact .inl h2
+    · exact .inr (.inl (hmono _ h1 h2))
+    · exact .inr (.inr h2)
+
+theorem chanOk_empty {n : Nat} {ow : Nat → Nat} (l : List Msg) (h : ChanOk n ow l)
+    (h0 : ∀ q, q < n → ow q = 0) (hc : countTerm l = 0) : l = [] := by
+  cases l with
+  | nil => rfl
+  | cons m l =>
+    exfalso
+    obtain ⟨h1, h2, _⟩ := h
+    unfold countTerm at hc
+    rw [List.countP_eq_zero] at hc
+    rcases h2 with h2 | h2 | ⟨m', hm', _, h2⟩
+    · have := hc m (by simp); simp [h2] at this
+    · have := h0 _ h1; omega
+    · have := hc m' (by simp [hm']); simp [h2] at this
+
+structure Inv (j : Job) (s : State) : Prop where
+  capOk : ∀ b r, (s.chan b r).length ≤ j.cap
+  tgtOk : ∀ b r sd, sd ∈ (s.proc b r).pending →
+    sd.blk < j.nblocks ∧ sd.rep < j.replicas sd.blk ∧ j.prev sd.blk = some b
+  pendDone : ∀ b r, done j b (s.proc b r) = true → ∀ sd ∈ (s.proc b r).pending, sd.elem = .term
+  pendNot : ∀ b r, done j b (s.proc b r) = false → ∀ sd ∈ (s.proc b r).pending, sd.elem ≠ .term
+  scriptOk : ∀ b r, j.prev b = none → ScriptOk (s.proc b r).script
+  noChan : ∀ b r, (¬ j.valid b r ∨ j.prev b = none) → s.chan b r = []
+  /-- `missing_terminate` = `Terminate`s in the channel + `Terminate`s the producers still owe -/
+  termAcc : ∀ b r pb, j.valid b r → j.prev b = some pb →
+    (s.proc b r).start.missingTerm
+      = countTerm (s.chan b r) + sumTo (j.replicas pb) (fun q => owes j s pb q b r)
+  chanOrd : ∀ b r pb, j.valid b r → j.prev b = some pb →
+    ChanOk (j.replicas pb) (fun q => owes j s pb q b r) (s.chan b r)
+  pub : ∀ b r, j.valid b r → (s.proc b r).published = if done j b (s.proc b r) then 1 else 0
+
+theorem inv_init {j : Job} (wf : j.WF) : Inv j (init j) := by
+  refine ⟨?_, ?_, ?_, ?_, ?_, ?_, ?_, ?_, ?_⟩
+  · intro b r; simp [init]
+  · intro b r sd h; simp [init, initProc] at h
+  · intro b r _ sd h; simp [init, initProc] at h
+  · intro b r _ sd h; simp [init, initProc] at h
+  · intro b r hp
+    simp only [init, initProc, hp]
+    exact scriptOk_init _ (wf.input_ok b r)
+  · intro b r _; rfl
+  · intro b r pb hv hp
+    have hpb := wf.topo b pb hv.1 hp
+    have hb := hv.1
+    have hn := wf.rep_pos pb (by omega)
+    have : ∀ q, owes j (init j) pb q b r = 1 := by
+      intro q
+      unfold owes
+      cases hpp : j.prev pb with
+      | none => simp [done, init, initProc, hpp]
+      | some x =>
+        have hx := wf.topo pb x (by omega) hpp
+        have := wf.rep_pos x (by omega)
+        simp [done, init, initProc, hpp, Start.init]; intro h; omega
+    simp only [this, sumTo_const_one]
+    simp [init, initProc, hp, Start.init, countTerm]
+  · intro b r pb _ _; simp [init, ChanOk]
+  · intro b r hv
+    cases hp : j.prev b with
+    | none => simp [done, init, initProc, hp]
+    | some pb =>
+      have hpb := wf.topo b pb hv.1 hp
+      have hb := hv.1
+      have hn := wf.rep_pos pb (by omega)
+      simp [done, init, initProc, hp, Start.init]; omega
+
+
+/-! ## preservation: send -/
+
+section send
+variable {j : Job} {s : State} {b r : Nat} {sd : Send} {rest : List Send}
+
+theorem send_proc_self : (sendState s b r sd rest).proc b r = { s.proc b r with pending := rest } := by
+  simp [sendState, set2]
+
+theorem send_proc_other {b' r' : Nat} (h : ¬ (b' = b ∧ r' = r)) :
+    (sendState s b r sd rest).proc b' r' = s.proc b' r' := by
+  simp [sendState, set2, h]
+
+theorem send_done (b' r' : Nat) :
+    done j b' ((sendState s b r sd rest).proc b' r') = done j b' (s.proc b' r') := by
+  by_cases h : b' = b ∧ r' = r
+  · obtain ⟨rfl, rfl⟩ := h; rw [send_proc_self]; rfl
+  · rw [send_proc_other h]
+
+theorem send_pending (hp : (s.proc b r).pending = sd :: rest) (b' r' : Nat) (x : Send)
+    (hx : x ∈ ((sendState s b r sd rest).proc b' r').pending) : x ∈ (s.proc b' r').pending := by
+  by_cases h : b' = b ∧ r' = r
+  · obtain ⟨rfl, rfl⟩ := h; rw [send_proc_self] at hx; rw [hp]; simp at hx ⊢; exact .inr hx
+  · rwa [send_proc_other h] at hx
+
+theorem send_chan_self :
+    (sendState s b r sd rest).chan sd.blk sd.rep = s.chan sd.blk sd.rep ++ [⟨r, sd.elem⟩] := by
+  simp [sendState, set2]
+
+theorem send_chan_other {c i : Nat} (h : ¬ (c = sd.blk ∧ i = sd.rep)) :
+    (sendState s b r sd rest).chan c i = s.chan c i := by
+  simp [sendState, set2, h]
+
+theorem send_owes (h : Inv j s) (hp : (s.proc b r).pending = sd :: rest) (pb q c i : Nat) :
+    owes j s pb q c i = owes j (sendState s b r sd rest) pb q c i +
+      (if pb = b ∧ q = r ∧ c = sd.blk ∧ i = sd.rep ∧ done j b (s.proc b r) = true then 1 else 0) := by
+  unfold owes
+  rw [send_done]
+  by_cases heq : pb = b ∧ q = r
+  · obtain ⟨rfl, rfl⟩ := heq
+    rw [send_proc_self]
+    cases hd : done j pb (s.proc pb q) with
+    | false => simp
+    | true =>
+      have ht := h.pendDone pb q hd sd (by simp [hp])
+      simp only [hp, tcount_cons, ht, if_true]
+      by_cases hm : c = sd.blk ∧ i = sd.rep
+      · obtain ⟨rfl, rfl⟩ := hm; simp
+      · have h1 : ¬ (sd.blk = c ∧ sd.rep = i) := by
+          intro ⟨h1, h2⟩; exact hm ⟨h1.symm, h2.symm⟩
+        simp only [and_true, true_and]
+        rw [if_neg h1, if_neg hm]
+  · rw [send_proc_other heq]
+    have : ¬ (pb = b ∧ q = r ∧ c = sd.blk ∧ i = sd.rep ∧ done j b (s.proc b r) = true) := by
+      intro ⟨h1, h2, _⟩; exact heq ⟨h1, h2⟩
+    simp [this]
+
+theorem send_owes_other (h : Inv j s) (hp : (s.proc b r).pending = sd :: rest) (pb q c i : Nat)
+    (hne : ¬ (pb = b ∧ q = r ∧ c = sd.blk ∧ i = sd.rep)) :
+    owes j (sendState s b r sd rest) pb q c i = owes j s pb q c i := by
+  have := send_owes (c := c) (i := i) h hp pb q
+  rw [if_neg (by intro ⟨h1, h2, h3, h4, _⟩; exact hne ⟨h1, h2, h3, h4⟩)] at this
+  omega
+
+theorem send_owes_hit (h : Inv j s) (hp : (s.proc b r).pending = sd :: rest) :
+    owes j s b r sd.blk sd.rep = owes j (sendState s b r sd rest) b r sd.blk sd.rep +
+      (if done j b (s.proc b r) = true then 1 else 0) := by
+  have := send_owes (c := sd.blk) (i := sd.rep) h hp b r
+  rw [this]
+  congr 1
+  simp
+
+theorem countTerm_append (l : List Msg) (m : Msg) :
+    countTerm (l ++ [m]) = countTerm l + (if m.elem = .term then 1 else 0) := by
+  simp [countTerm, List.countP_append, List.countP_cons]
+
+theorem inv_send (h : Inv j s) (hv : j.valid b r)
+    (hp : (s.proc b r).pending = sd :: rest) (hl : (s.chan sd.blk sd.rep).length < j.cap) :
+    Inv j (sendState s b r sd rest) := by
+  have ht := h.tgtOk b r sd (by simp [hp])
+  refine ⟨?_, ?_, ?_, ?_, ?_, ?_, ?_, ?_, ?_⟩
+  · intro c i
+    by_cases hc : c = sd.blk ∧ i = sd.rep
+    · obtain ⟨rfl, rfl⟩ := hc; rw [send_chan_self]; simp; omega
+    · rw [send_chan_other hc]; exact h.capOk c i
+  · intro b' r' x hx
+    have hx' := send_pending hp b' r' x hx
+    exact h.tgtOk b' r' x hx'
+  · intro b' r' hd x hx
+    rw [send_done] at hd
+    exact h.pendDone b' r' hd x (send_pending hp b' r' x hx)
+  · intro b' r' hd x hx
+    rw [send_done] at hd
+    exact h.pendNot b' r' hd x (send_pending hp b' r' x hx)
+  · intro b' r' hpr
+    by_cases heq : b' = b ∧ r' = r
+    · obtain ⟨rfl, rfl⟩ := heq; rw [send_proc_self]; exact h.scriptOk b' r' hpr
+    · rw [send_proc_other heq]; exact h.scriptOk b' r' hpr
+  · intro c i hc
+    have hne : ¬ (c = sd.blk ∧ i = sd.rep) := by
+      intro ⟨h1, h2⟩
+      subst h1 h2
+      rcases hc with hc | hc
+      · exact hc ⟨ht.1, ht.2.1⟩
+      · rw [ht.2.2] at hc; cases hc
+    rw [send_chan_other hne]; exact h.noChan c i hc
+  · intro c i pb hvc hpc
+    have hacc := h.termAcc c i pb hvc hpc
+    have hstart : ((sendState s b r sd rest).proc c i).start = (s.proc c i).start := by
+      by_cases heq : c = b ∧ i = r
+      · obtain ⟨rfl, rfl⟩ := heq; rw [send_proc_self]
+      · rw [send_proc_other heq]
+    rw [hstart, hacc]
+    by_cases hc : c = sd.blk ∧ i = sd.rep
+    · obtain ⟨rfl, rfl⟩ := hc
+      have hpb : pb = b := by rw [ht.2.2] at hpc; cases hpc; rfl
+      subst hpb
+      rw [send_chan_self, countTerm_append]
+      have hsum := sumTo_change (n := j.replicas pb) (i := r)
+        (f := fun q => owes j s pb q sd.blk sd.rep)
+        (g := fun q => owes j (sendState s pb r sd rest) pb q sd.blk sd.rep) hv.2
+        (fun k _ hk => send_owes_other h hp pb k sd.blk sd.rep (fun hh => hk hh.2.1))
+      have ho := send_owes_hit h hp
+      cases hd : done j pb (s.proc pb r) with
+      | true =>
+        have := h.pendDone pb r hd sd (by simp [hp])
+        rw [hd] at ho
+        simp only [if_true] at ho
+        simp only [this, if_true]; omega
+      | false =>
+        have := h.pendNot pb r hd sd (by simp [hp])
+        rw [hd] at ho
+        simp only [Bool.false_eq_true, if_false] at ho
+        simp only [this, if_false]; omega
+    · rw [send_chan_other hc]
+      congr 1
+      apply sumTo_congr
+      intro q _
+      exact (send_owes_other h hp pb q c i (fun hh => hc hh.2.2)).symm
+  · intro c i pb hvc hpc
+    have hord := h.chanOrd c i pb hvc hpc
+    by_cases hc : c = sd.blk ∧ i = sd.rep
+    · obtain ⟨rfl, rfl⟩ := hc
+      have hpb : pb = b := by rw [ht.2.2] at hpc; cases hpc; rfl
+      subst hpb
+      rw [send_chan_self]
+      apply chanOk_append _ hord hv.2
+      · intro q hq
+        by_cases hqr : q = r
+        · subst hqr
+          have ho := send_owes_hit h hp
+          cases hd : done j pb (s.proc pb q) with
+          | true => exact .inr ⟨rfl, h.pendDone pb q hd sd (by simp [hp])⟩
+          | false =>
+            rw [hd] at ho
+            simp only [Bool.false_eq_true, if_false] at ho
+            left; omega
+        · have ho := send_owes_other h hp pb q sd.blk sd.rep (fun hh => hqr hh.2.1)
+          left; omega
+      · cases hd : done j pb (s.proc pb r) with
+        | true => exact .inl (h.pendDone pb r hd sd (by simp [hp]))
+        | false =>
+          right
+          simp only [owes, send_done, hd]
+          simp
+    · rw [send_chan_other hc]
+      apply chanOk_mono _ hord
+      intro q _ hq
+      have := send_owes_other h hp pb q c i (fun hh => hc hh.2.2)
+      omega
+  · intro c i hvc
+    rw [send_done]
+    by_cases heq : c = b ∧ i = r
+    · obtain ⟨rfl, rfl⟩ := heq; rw [send_proc_self]; exact h.pub c i hvc
+    · rw [send_proc_other heq]; exact h.pub c i hvc
+
+end send
+
+/-! ## preservation: pulling an element (source script or `Start`) -/
+
+theorem done_emit (j : Job) (b r : Nat) (p0 : Proc) (outs : List (Elem Nat)) :
+    done j b (emit j b r p0 outs) = done j b p0 := by
+  unfold done emit
+  cases j.prev b <;> rfl
+
+/-- what the process-local part of a pull preserves -/
+structure PullOk (j : Job) (s : State) (b r : Nat) (p0 : Proc) (outs : List (Elem Nat)) : Prop where
+  notDone : done j b (s.proc b r) = false
+  isTerm : done j b p0 = true → outs = [.term]
+  noTerm : done j b p0 = false → Elem.term ∉ outs
+  pubEq : p0.published = (s.proc b r).published
+  scr : j.prev b = none → ScriptOk p0.script
+
+section pull
+variable {j : Job} {s s' : State} {b r : Nat} {p0 : Proc} {outs : List (Elem Nat)}
+
+theorem pull_mem_pending {sd : Send} (h : sd ∈ (emit j b r p0 outs).pending) :
+    ∃ e ∈ outs, sd ∈ sendsOf j b r p0.clock e := by
+  simp only [emit, List.mem_flatMap] at h
+  exact h
+
+theorem pull_owes (hs : s'.proc = set2 s.proc b r (emit j b r p0 outs))
+    (ok : PullOk j s b r p0 outs) (pb q c i : Nat) (hv : j.valid c i) (hp : j.prev c = some pb) :
+    owes j s' pb q c i = owes j s pb q c i := by
+  unfold owes
+  rw [hs]
+  by_cases heq : pb = b ∧ q = r
+  · obtain ⟨rfl, rfl⟩ := heq
+    rw [set2_same, ok.notDone, done_emit]
+    cases hd : done j pb p0 with
+    | false => rfl
+    | true =>
+      have := ok.isTerm hd
+      subst this
+      simp only [emit, List.flatMap_cons, List.flatMap_nil, List.append_nil, if_true]
+      rw [tcount_sendsOf_term hv hp]
+      simp
+  · rw [set2_other _ _ _ _ _ _ heq]
+
+theorem pull_tgtOk (wf : j.WF) (h : Inv j s) (hs : s'.proc = set2 s.proc b r (emit j b r p0 outs)) :
+    ∀ b' r' sd, sd ∈ (s'.proc b' r').pending →
+      sd.blk < j.nblocks ∧ sd.rep < j.replicas sd.blk ∧ j.prev sd.blk = some b' := by
+  intro b' r' sd hsd
+  rw [hs] at hsd
+  by_cases heq : b' = b ∧ r' = r
+  · obtain ⟨rfl, rfl⟩ := heq
+    rw [set2_same] at hsd
+    obtain ⟨e, _, he⟩ := pull_mem_pending hsd
+    exact (mem_sendsOf wf he).2
+  · rw [set2_other _ _ _ _ _ _ heq] at hsd
+    exact h.tgtOk b' r' sd hsd
+
+theorem pull_pendDone (wf : j.WF) (h : Inv j s) (hs : s'.proc = set2 s.proc b r (emit j b r p0 outs))
+    (ok : PullOk j s b r p0 outs) :
+    ∀ b' r', done j b' (s'.proc b' r') = true → ∀ sd ∈ (s'.proc b' r').pending, sd.elem = .term := by
+  intro b' r' hd sd hsd
+  rw [hs] at hsd hd
+  by_cases heq : b' = b ∧ r' = r
+  · obtain ⟨rfl, rfl⟩ := heq
+    rw [set2_same] at hsd hd
+    rw [done_emit] at hd
+    obtain ⟨e, he1, he⟩ := pull_mem_pending hsd
+    rw [ok.isTerm hd] at he1
+    simp at he1; subst he1
+    exact (mem_sendsOf wf he).1
+  · rw [set2_other _ _ _ _ _ _ heq] at hsd hd
+    exact h.pendDone b' r' hd sd hsd
+
+theorem pull_pendNot (wf : j.WF) (h : Inv j s) (hs : s'.proc = set2 s.proc b r (emit j b r p0 outs))
+    (ok : PullOk j s b r p0 outs) :
+    ∀ b' r', done j b' (s'.proc b' r') = false → ∀ sd ∈ (s'.proc b' r').pending, sd.elem ≠ .term := by
+  intro b' r' hd sd hsd
+  rw [hs] at hsd hd
+  by_cases heq : b' = b ∧ r' = r
+  · obtain ⟨rfl, rfl⟩ := heq
+    rw [set2_same] at hsd hd
+    rw [done_emit] at hd
+    obtain ⟨e, he1, he⟩ := pull_mem_pending hsd
+    rw [(mem_sendsOf wf he).1]
+    intro h; subst h
+    exact ok.noTerm hd he1
+  · rw [set2_other _ _ _ _ _ _ heq] at hsd hd
+    exact h.pendNot b' r' hd sd hsd
+
+theorem pull_scriptOk (h : Inv j s) (hs : s'.proc = set2 s.proc b r (emit j b r p0 outs))
+    (ok : PullOk j s b r p0 outs) :
+    ∀ b' r', j.prev b' = none → ScriptOk (s'.proc b' r').script := by
+  intro b' r' hp
+  rw [hs]
+  by_cases heq : b' = b ∧ r' = r
+  · obtain ⟨rfl, rfl⟩ := heq
+    rw [set2_same]
+    exact ok.scr hp
+  · rw [set2_other _ _ _ _ _ _ heq]
+    exact h.scriptOk b' r' hp
+
+theorem pull_pub (h : Inv j s) (hs : s'.proc = set2 s.proc b r (emit j b r p0 outs))
+    (ok : PullOk j s b r p0 outs) :
+    ∀ b' r', j.valid b' r' →
+      (s'.proc b' r').published = if done j b' (s'.proc b' r') then 1 else 0 := by
+  intro b' r' hv
+  rw [hs]
+  by_cases heq : b' = b ∧ r' = r
+  · obtain ⟨rfl, rfl⟩ := heq
+    rw [set2_same, done_emit]
+    have hold := h.pub b' r' hv
+    rw [ok.notDone] at hold
+    have hp : (emit j b' r' p0 outs).published = p0.published + outs.countP Elem.isTerm := rfl
+    rw [hp, ok.pubEq, hold]
+    cases hd : done j b' p0 with
+    | true => rw [ok.isTerm hd]; simp [Elem.isTerm]
+    | false =>
+      have := ok.noTerm hd
+      have h0 : outs.countP Elem.isTerm = 0 := by
+        rw [List.countP_eq_zero]
+        intro x hx
+        cases x <;> simp [Elem.isTerm]
+        exact this hx
+      simp [h0]
+  · rw [set2_other _ _ _ _ _ _ heq]
+    exact h.pub b' r' hv
+
+end pull
+
+/-! ### source -/
+
+theorem inv_src {j : Job} (wf : j.WF) {s : State} {b r : Nat} {e : Elem Nat} {es : List (Elem Nat)}
+    (h : Inv j s) (hpr : j.prev b = none) (hs : (s.proc b r).script = e :: es) :
+    Inv j (srcState j s b r e es) := by
+  have hproc : (srcState j s b r e es).proc
+      = set2 s.proc b r (emit j b r { s.proc b r with script := es } [e]) := rfl
+  have hchan : (srcState j s b r e es).chan = s.chan := rfl
+  have hso := h.scriptOk b r hpr
+  rw [hs] at hso
+  have ok : PullOk j s b r { s.proc b r with script := es } [e] := by
+    refine ⟨?_, ?_, ?_, rfl, ?_⟩
+    · simp [done, hpr, hs]
+    · intro hd
+      simp only [done, hpr, List.isEmpty_iff] at hd
+      subst hd
+      simp only [ScriptOk] at hso
+      rw [hso]
+    · intro hd
+      simp only [done, hpr] at hd
+      cases es with
+      | nil => simp at hd
+      | cons e' es' => simp only [ScriptOk] at hso; simpa using fun h => hso.1 h.symm
+    · intro _
+      cases es with
+      | nil => trivial
+      | cons e' es' => exact hso.2
+  refine ⟨?_, pull_tgtOk wf h hproc, pull_pendDone wf h hproc ok, pull_pendNot wf h hproc ok,
+    pull_scriptOk h hproc ok, ?_, ?_, ?_, pull_pub h hproc ok⟩
+  · intro c i; rw [hchan]; exact h.capOk c i
+  · intro c i hc; rw [hchan]; exact h.noChan c i hc
+  · intro c i pb hvc hpc
+    have hne : ¬ (c = b ∧ i = r) := by
+      intro ⟨h1, _⟩; subst h1; rw [hpr] at hpc; cases hpc
+    rw [hchan, hproc, set2_other _ _ _ _ _ _ hne, h.termAcc c i pb hvc hpc]
+    congr 1
+    exact sumTo_congr (fun q _ => (pull_owes hproc ok pb q c i hvc hpc).symm)
+  · intro c i pb hvc hpc
+    rw [hchan]
+    apply chanOk_mono _ (h.chanOrd c i pb hvc hpc)
+    intro q _ hq
+    rw [pull_owes hproc ok pb q c i hvc hpc]
+    exact hq
+
+/-! ### receive -/
+
+theorem countTerm_cons (m : Msg) (l : List Msg) :
+    countTerm (m :: l) = countTerm l + (if m.elem = .term then 1 else 0) := by
+  simp [countTerm, List.countP_cons]
+
+theorem inv_recv {j : Job} (wf : j.WF) {s : State} {b r pb : Nat} {m : Msg} {ms : List Msg}
+    (h : Inv j s) (hv : j.valid b r) (hpr : j.prev b = some pb)
+    (hmt : (s.proc b r).start.missingTerm ≠ 0) (hc : s.chan b r = m :: ms) :
+    Inv j (recvState j s b r m ms) := by
+  have hproc : (recvState j s b r m ms).proc = set2 s.proc b r (emit j b r
+      { s.proc b r with start := (Start.step (s.proc b r).start (.elem m.sender m.elem)).1 }
+      (Start.step (s.proc b r).start (.elem m.sender m.elem)).2) := rfl
+  have hchan : (recvState j s b r m ms).chan = set2 s.chan b r ms := rfl
+  obtain ⟨_, hS2, hS3, hS4, _, _⟩ := start_step_cases (s.proc b r).start m.sender m.elem hmt
+  have ok : PullOk j s b r
+      { s.proc b r with start := (Start.step (s.proc b r).start (.elem m.sender m.elem)).1 }
+      (Start.step (s.proc b r).start (.elem m.sender m.elem)).2 := by
+    refine ⟨?_, ?_, ?_, rfl, ?_⟩
+    · simp [done, hpr, hmt]
+    · intro hd
+      simp only [done, hpr, beq_iff_eq] at hd
+      exact hS3 hd
+    · intro hd
+      simp only [done, hpr, beq_eq_false_iff_ne] at hd
+      exact hS4 hd
+    · intro h0; rw [hpr] at h0; cases h0
+  have hpb := wf.topo b pb hv.1 hpr
+  refine ⟨?_, pull_tgtOk wf h hproc, pull_pendDone wf h hproc ok, pull_pendNot wf h hproc ok,
+    pull_scriptOk h hproc ok, ?_, ?_, ?_, pull_pub h hproc ok⟩
+  · intro c i
+    rw [hchan]
+    by_cases heq : c = b ∧ i = r
+    · obtain ⟨rfl, rfl⟩ := heq
+      rw [set2_same]
+      have := h.capOk c i
+      rw [hc] at this; simp at this; omega
+    · rw [set2_other _ _ _ _ _ _ heq]; exact h.capOk c i
+  · intro c i hci
+    rw [hchan]
+    by_cases heq : c = b ∧ i = r
+    · obtain ⟨rfl, rfl⟩ := heq
+      rcases hci with hci | hci
+      · exact absurd hv hci
+      · rw [hpr] at hci; cases hci
+    · rw [set2_other _ _ _ _ _ _ heq]; exact h.noChan c i hci
+  · intro c i pc hvc hpc
+    have hsum : sumTo (j.replicas pc) (fun q => owes j (recvState j s b r m ms) pc q c i)
+        = sumTo (j.replicas pc) (fun q => owes j s pc q c i) :=
+      sumTo_congr (fun q _ => pull_owes hproc ok pc q c i hvc hpc)
+    rw [hsum, hchan, hproc]
+    have hacc := h.termAcc c i pc hvc hpc
+    by_cases heq : c = b ∧ i = r
+    · obtain ⟨rfl, rfl⟩ := heq
+      rw [set2_same, set2_same]
+      rw [hc, countTerm_cons] at hacc
+      have : (emit j c i { s.proc c i with start := (Start.step (s.proc c i).start (.elem m.sender m.elem)).1 }
+          (Start.step (s.proc c i).start (.elem m.sender m.elem)).2).start
+          = (Start.step (s.proc c i).start (.elem m.sender m.elem)).1 := rfl
+      rw [this, hS2]
+      omega
+    · rw [set2_other _ _ _ _ _ _ heq, set2_other _ _ _ _ _ _ heq]
+      exact hacc
+  · intro c i pc hvc hpc
+    have hord := h.chanOrd c i pc hvc hpc
+    have hmono : ∀ q, q < j.replicas pc → 1 ≤ owes j s pc q c i →
+        1 ≤ owes j (recvState j s b r m ms) pc q c i := by
+      intro q _ hq
+      rw [pull_owes hproc ok pc q c i hvc hpc]; exact hq
+    rw [hchan]
+    by_cases heq : c = b ∧ i = r
+    · obtain ⟨rfl, rfl⟩ := heq
+      rw [set2_same]
+      rw [hc] at hord
+      exact chanOk_mono _ hord.2.2 hmono
+    · rw [set2_other _ _ _ _ _ _ heq]
+      exact chanOk_mono _ hord hmono
+
+theorem inv_step {j : Job} (wf : j.WF) {s : State} (h : Inv j s) (b r : Nat) :
+    Inv j (step j s b r) := by
+  have hc := step_case j s b r
+  generalize step j s b r = s' at hc
+  cases hc with
+  | idle _ => exact h
+  | send sd rest _ hv hp hl => exact inv_send h hv hp hl
+  | src e es _ _ _ hpr hs => exact inv_src wf h hpr hs
+  | recv m ms pb _ hv _ hpr hmt hc => exact inv_recv wf h hv hpr hmt hc
+
+theorem inv_reachable {j : Job} (wf : j.WF) {s : State} (h : Reachable j s) : Inv j s := by
+  induction h with
+  | init => exact inv_init wf
+  | step b r _ ih => exact inv_step wf ih b r
+
+
+/-! ## the layer-1 configuration -/
+
+theorem rep_le_maxRep (j : Job) {b : Nat} (hb : b < j.nblocks) : j.replicas b ≤ maxRep j :=
+  (Net.foldl_max_ge j.replicas (List.range j.nblocks) 0).2 b (List.mem_range.mpr hb)
+
+theorem pid_div (j : Job) {b i : Nat} (hi : i < maxRep j) : pid j b i / maxRep j = b := by
+  unfold pid
+  apply Nat.div_eq_of_lt_le
+  · omega
+  · rw [Nat.succ_mul]; omega
+
+theorem pid_mod (j : Job) {b i : Nat} (hi : i < maxRep j) : pid j b i % maxRep j = i := by
+  unfold pid
+  rw [Nat.mul_add_mod_self_right, Nat.mod_eq_of_lt hi]
+
+theorem pid_decode (j : Job) (p : Nat) : pid j (p / maxRep j) (p % maxRep j) = p := by
+  unfold pid
+  exact Nat.div_add_mod' p (maxRep j)
+
+theorem pid_lt (j : Job) {b i : Nat} (hv : j.valid b i) : pid j b i < j.nblocks * maxRep j := by
+  have h1 := rep_le_maxRep j hv.1
+  have h2 := hv.2
+  have h3 : (b + 1) * maxRep j ≤ j.nblocks * maxRep j := Nat.mul_le_mul_right _ hv.1
+  rw [Nat.succ_mul] at h3
+  unfold pid; omega
+
+theorem valid_lt_maxRep (j : Job) {b i : Nat} (hv : j.valid b i) : i < maxRep j := by
+  have := rep_le_maxRep j hv.1; have := hv.2; omega
+
+theorem cfg_status_valid (j : Job) (s : State) {b r : Nat} (hv : j.valid b r) :
+    (toConfig j s).status (pid j b r) = status j s b r := by
+  have hr := valid_lt_maxRep j hv
+  simp only [toConfig, pid_div j hr, pid_mod j hr, hv.2, if_true]
+
+/-- a non-finished layer-1 process is a replica of the job -/
+theorem cfg_status_inv (j : Job) (s : State) {p : Nat} (hp : p < (toConfig j s).nproc)
+    (hne : (toConfig j s).status p ≠ .finished) :
+    j.valid (p / maxRep j) (p % maxRep j) ∧
+    (toConfig j s).status p = status j s (p / maxRep j) (p % maxRep j) := by
+  have hp' : p < j.nblocks * maxRep j := hp
+  by_cases hr : p % maxRep j < j.replicas (p / maxRep j)
+  · refine ⟨⟨Nat.div_lt_of_lt_mul (by rwa [Nat.mul_comm] at hp'), hr⟩, ?_⟩
+    simp only [toConfig, hr, if_true]
+  · exfalso; apply hne; simp only [toConfig, hr, if_false]
+
+theorem status_sendBlocked {j : Job} {s : State} {b r ch : Nat} (h : status j s b r = .sendBlocked ch) :
+    ∃ sd rest, (s.proc b r).pending = sd :: rest ∧ ¬ (s.chan sd.blk sd.rep).length < j.cap ∧
+      ch = pid j sd.blk sd.rep := by
+  unfold status at h
+  cases hp : (s.proc b r).pending with
+  | nil =>
+    simp only [hp] at h
+    split at h
+    · cases h
+    · split at h
+      · cases h
+      · split at h <;> cases h
+  | cons sd rest =>
+    simp only [hp] at h
+    split at h
+    · cases h
+    · rename_i hl
+      injection h with h
+      exact ⟨sd, rest, rfl, hl, h.symm⟩
+
+theorem status_recvBlocked {j : Job} {s : State} {b r : Nat} {w : List Nat}
+    (h : status j s b r = .recvBlocked w) :
+    (s.proc b r).pending = [] ∧ done j b (s.proc b r) = false ∧ (∃ pb, j.prev b = some pb) ∧
+      s.chan b r = [] ∧ w = [pid j b r] := by
+  unfold status at h
+  cases hp : (s.proc b r).pending with
+  | cons sd rest =>
+    simp only [hp] at h
+    split at h <;> cases h
+  | nil =>
+    simp only [hp] at h
+    split at h
+    · cases h
+    · rename_i hd
+      split at h
+      · cases h
+      · rename_i pb hpb
+        split at h
+        · rename_i he
+          injection h with h
+          exact ⟨rfl, by simpa using hd, ⟨pb, hpb⟩, by simpa using he, h.symm⟩
+        · cases h
+
+theorem status_finished {j : Job} {s : State} {b r : Nat} :
+    status j s b r = .finished ↔ (s.proc b r).pending = [] ∧ done j b (s.proc b r) = true := by
+  unfold status
+  constructor
+  · intro h
+    cases hp : (s.proc b r).pending with
+    | cons sd rest =>
+      simp only [hp] at h
+      split at h <;> cases h
+    | nil =>
+      simp only [hp] at h
+      split at h
+      · rename_i hd; exact ⟨rfl, hd⟩
+      · split at h
+        · cases h
+        · split at h <;> cases h
+  · intro ⟨hp, hd⟩
+    simp only [hp, hd, if_true]
+
+/-- **A3**: a replica that has pulled `Terminate` has an empty input channel. -/
+theorem done_chan_empty {j : Job} {s : State} (h : Inv j s) {b r : Nat} (hv : j.valid b r)
+    (hd : done j b (s.proc b r) = true) : s.chan b r = [] := by
+  cases hp : j.prev b with
+  | none => exact h.noChan b r (.inr hp)
+  | some pb =>
+    have hacc := h.termAcc b r pb hv hp
+    have hmt : (s.proc b r).start.missingTerm = 0 := by simpa [done, hp] using hd
+    rw [hmt] at hacc
+    apply chanOk_empty _ (h.chanOrd b r pb hv hp)
+    · exact sumTo_zero (f := fun q => owes j s pb q b r) (by omega)
+    · omega
+
+theorem finished_owes {j : Job} {s : State} {pb q c i : Nat} (h : status j s pb q = .finished) :
+    owes j s pb q c i = 0 := by
+  obtain ⟨hp, hd⟩ := status_finished.mp h
+  simp [owes, hd, hp, tcount]
+
+theorem wellFormed_of_inv {j : Job} (wf : j.WF) {s : State} (h : Inv j s) :
+    Net.WellFormed (toConfig j s) := by
+  refine ⟨?_, ?_, ?_, ?_, ?_, ?_⟩
+  · -- A1
+    intro p ch hp hs
+    obtain ⟨hv, hst⟩ := cfg_status_inv j s hp (by rw [hs]; intro h; cases h)
+    rw [hst] at hs
+    obtain ⟨sd, rest, hpend, hfull, rfl⟩ := status_sendBlocked hs
+    obtain ⟨t1, t2, t3⟩ := h.tgtOk (p / maxRep j) (p % maxRep j) sd (by rw [hpend]; simp)
+    have hvt : j.valid sd.blk sd.rep := ⟨t1, t2⟩
+    have hr := valid_lt_maxRep j hvt
+    have hcap := h.capOk sd.blk sd.rep
+    refine ⟨?_, wf.cap_pos, pid_lt j hvt, ?_⟩
+    · simp only [toConfig, pid_div j hr, pid_mod j hr]; omega
+    · simp only [toConfig, pid_div j hr, pid_mod j hr, hvt, if_true, t3]
+      exact List.mem_map.mpr ⟨p % maxRep j, List.mem_range.mpr hv.2, pid_decode j p⟩
+  · -- A2
+    intro p w ch hp hs hch
+    obtain ⟨hv, hst⟩ := cfg_status_inv j s hp (by rw [hs]; intro h; cases h)
+    rw [hst] at hs
+    obtain ⟨_, _, ⟨pb, hpb⟩, hempty, rfl⟩ := status_recvBlocked hs
+    simp only [List.mem_singleton] at hch
+    subst hch
+    rw [pid_decode]
+    refine ⟨?_, rfl, ?_⟩
+    · simp only [toConfig, hempty, List.length_nil]
+    · intro q hq
+      simp only [toConfig, hv, if_true, hpb] at hq
+      obtain ⟨i, hi, rfl⟩ := List.mem_map.mp hq
+      have := wf.topo _ pb hv.1 hpb
+      exact pid_lt j ⟨by have := hv.1; omega, List.mem_range.mp hi⟩
+  · -- A3
+    intro ch hch hs
+    simp only [toConfig] at hs ⊢
+    by_cases hr : ch % maxRep j < j.replicas (ch / maxRep j)
+    · have hb : ch / maxRep j < j.nblocks :=
+        Nat.div_lt_of_lt_mul (by have : ch < j.nblocks * maxRep j := hch; rwa [Nat.mul_comm] at this)
+      simp only [hr, if_true] at hs
+      rw [done_chan_empty h ⟨hb, hr⟩ (status_finished.mp hs).2]; rfl
+    · rw [h.noChan _ _ (.inl (fun hv => hr hv.2))]; rfl
+  · -- A4
+    intro p ch w hp hs hcs
+    have hcs' : (toConfig j s).status ch = .recvBlocked w := hcs
+    simp only [toConfig] at hcs'
+    by_cases hr : ch % maxRep j < j.replicas (ch / maxRep j)
+    · simp only [hr, if_true] at hcs'
+      obtain ⟨_, _, _, _, rfl⟩ := status_recvBlocked hcs'
+      rw [pid_decode]; simp
+    · simp only [hr, if_false] at hcs'; cases hcs'
+  · -- A5
+    intro p w hp hs hall
+    obtain ⟨hv, hst⟩ := cfg_status_inv j s hp (by rw [hs]; intro h; cases h)
+    rw [hst] at hs
+    obtain ⟨_, hnd, ⟨pb, hpb⟩, hempty, rfl⟩ := status_recvBlocked hs
+    have hacc := h.termAcc _ _ pb hv hpb
+    have hlt := wf.topo _ pb hv.1 hpb
+    have hpbv : pb < j.nblocks := by have := hv.1; omega
+    have hsum : sumTo (j.replicas pb) (fun q => owes j s pb q (p / maxRep j) (p % maxRep j)) = 0 := by
+      apply sumTo_eq_zero
+      intro q hq
+      apply finished_owes
+      rw [← cfg_status_valid j s ⟨hpbv, hq⟩]
+      apply hall (pid j (p / maxRep j) (p % maxRep j)) (by simp)
+      rw [pid_decode]
+      simp only [toConfig, hv, if_true, hpb]
+      exact List.mem_map.mpr ⟨q, List.mem_range.mpr hq, rfl⟩
+    rw [hsum, hempty] at hacc
+    simp [done, hpb, countTerm] at hnd hacc
+    exact hnd hacc
+  · -- A6
+    intro ch q hq
+    simp only [toConfig] at hq ⊢
+    by_cases hv : j.valid (ch / maxRep j) (ch % maxRep j)
+    · simp only [hv, if_true] at hq
+      cases hpb : j.prev (ch / maxRep j) with
+      | none => simp [hpb] at hq
+      | some pb =>
+        simp only [hpb] at hq
+        obtain ⟨i, hi, rfl⟩ := List.mem_map.mp hq
+        have hlt := wf.topo _ pb hv.1 hpb
+        have hpbv : pb < j.nblocks := by have := hv.1; omega
+        rw [pid_div j (valid_lt_maxRep j ⟨hpbv, List.mem_range.mp hi⟩)]
+        exact hlt
+    · simp only [hv, if_false] at hq; cases hq
+
+
+/-! ## progress -/
+
+theorem progress {j : Job} (wf : j.WF) {s : State} (h : Inv j s) (hnf : ¬ final j s) :
+    ∃ b r, enabled j s b r := by
+  apply Classical.byContradiction
+  intro hno
+  apply hnf
+  have hall := Net.stuck_all_finished (toConfig j s) (wellFormed_of_inv wf h) (by
+    intro p hp hr
+    obtain ⟨hv, hst⟩ := cfg_status_inv j s hp (by rw [hr]; intro h; cases h)
+    rw [hst] at hr
+    exact hno ⟨_, _, hv, hr⟩)
+  intro b r hv
+  rw [← cfg_status_valid j s hv]
+  exact hall _ (pid_lt j hv)
+
+/-! ## the termination measure -/
+
+def procW (j : Job) (b : Nat) (p : Proc) : Nat := p.script.length * W j b + sendW j p.pending
+
+/-- remaining source elements, pending sends and elements in flight, each weighted by the number
+    of steps it can still cause downstream -/
+def cellW (j : Job) (s : State) (b r : Nat) : Nat :=
+  procW j b (s.proc b r) + (s.chan b r).length * W j b
+
+def mu (j : Job) (s : State) : Nat := sum2 j (cellW j s)
+
+theorem sendW_cons (j : Job) (sd : Send) (l : List Send) :
+    sendW j (sd :: l) = 1 + W j sd.blk + sendW j l := by
+  simp [sendW]
+
+theorem sendW_outs {j : Job} (wf : j.WF) (b r k : Nat) (outs : List (Elem Nat)) (hl : outs.length ≤ 1) :
+    sendW j (outs.flatMap (sendsOf j b r k)) + 1 ≤ W j b := by
+  match outs, hl with
+  | [], _ => have := W_pos j b; simp [sendW]; omega
+  | [x], _ =>
+    simp only [List.flatMap_cons, List.flatMap_nil, List.append_nil]
+    exact sendW_sendsOf wf b r k x
+  | _ :: _ :: _, hl => simp at hl
+
+theorem mu_step {j : Job} (wf : j.WF) {s : State} (h : Inv j s) {b r : Nat} (he : enabled j s b r) :
+    mu j (step j s b r) < mu j s := by
+  have hc := step_case j s b r
+  generalize step j s b r = s' at hc
+  cases hc with
+  | idle hne => exact absurd he hne
+  | send sd rest _ hv hp hl =>
+    obtain ⟨t1, t2, t3⟩ := h.tgtOk b r sd (by rw [hp]; simp)
+    have hne : ¬ (sd.blk = b ∧ sd.rep = r) := by
+      intro ⟨h1, _⟩; have := wf.topo _ _ t1 t3; omega
+    -- first the sender's pending list (state `s1`), then the target channel
+    let s1 : State := { proc := (sendState s b r sd rest).proc, chan := s.chan }
+    have h1 := sum2_change (j := j) (b := b) (r := r) hv (f := cellW j s) (g := cellW j s1)
+      (by intro b' r' _ hne'; simp only [cellW, s1, send_proc_other hne'])
+    have h2 := sum2_change (j := j) (b := sd.blk) (r := sd.rep) ⟨t1, t2⟩ (f := cellW j s1)
+      (g := cellW j (sendState s b r sd rest))
+      (by intro b' r' _ hne'; simp only [cellW, s1, send_chan_other hne'])
+    have e1 : cellW j s b r = cellW j s1 b r + (1 + W j sd.blk) := by
+      simp only [cellW, s1, send_proc_self, procW, hp, sendW_cons]; omega
+    have e2 : cellW j (sendState s b r sd rest) sd.blk sd.rep = cellW j s1 sd.blk sd.rep + W j sd.blk := by
+      simp only [cellW, s1, send_chan_self, List.length_append, List.length_singleton, Nat.succ_mul]
+      omega
+    unfold mu
+    omega
+  | src e es _ hv hp hpr hs =>
+    have h1 := sum2_change (j := j) (b := b) (r := r) hv (f := cellW j s)
+      (g := cellW j (srcState j s b r e es))
+      (by intro b' r' _ hne'; simp only [cellW, srcState, set2_other _ _ _ _ _ _ hne'])
+    have hw := sendW_sendsOf wf b r (s.proc b r).clock e
+    have e1 : cellW j (srcState j s b r e es) b r + 1 ≤ cellW j s b r := by
+      simp only [cellW, srcState, set2_same, procW, emit, hs, hp, List.length_cons, Nat.succ_mul,
+        List.flatMap_cons, List.flatMap_nil, List.append_nil]
+      have : sendW j [] = 0 := rfl
+      omega
+    unfold mu
+    omega
+  | recv m ms pb _ hv hp hpr hmt hc =>
+    have h1 := sum2_change (j := j) (b := b) (r := r) hv (f := cellW j s)
+      (g := cellW j (recvState j s b r m ms))
+      (by intro b' r' _ hne'; simp only [cellW, recvState, set2_other _ _ _ _ _ _ hne'])
+    obtain ⟨hS1, _⟩ := start_step_cases (s.proc b r).start m.sender m.elem hmt
+    have hw := sendW_outs wf b r (s.proc b r).clock _ hS1
+    have e1 : cellW j (recvState j s b r m ms) b r + 1 ≤ cellW j s b r := by
+      simp only [cellW, recvState, set2_same, procW, emit, hc, hp, List.length_cons, Nat.succ_mul]
+      have : sendW j [] = 0 := rfl
+      omega
+    unfold mu
+    omega
+
+
+/-! ## executions -/
+
+theorem run_cons (j : Job) (s : State) (p : Nat × Nat) (l : List (Nat × Nat)) :
+    run j s (p :: l) = run j (step j s p.1 p.2) l := rfl
+
+theorem run_append (j : Job) (s : State) (l1 l2 : List (Nat × Nat)) :
+    run j s (l1 ++ l2) = run j (run j s l1) l2 := by
+  simp [run, List.foldl_append]
+
+theorem reachable_run {j : Job} {s : State} (h : Reachable j s) (l : List (Nat × Nat)) :
+    Reachable j (run j s l) := by
+  induction l generalizing s with
+  | nil => exact h
+  | cons p l ih => exact ih (.step p.1 p.2 h)
+
+theorem inv_run {j : Job} (wf : j.WF) {s : State} (h : Inv j s) (l : List (Nat × Nat)) :
+    Inv j (run j s l) := by
+  induction l generalizing s with
+  | nil => exact h
+  | cons p l ih => exact ih (inv_step wf h p.1 p.2)
+
+theorem mu_step_le {j : Job} (wf : j.WF) {s : State} (h : Inv j s) (b r : Nat) :
+    mu j (step j s b r) ≤ mu j s := by
+  by_cases he : enabled j s b r
+  · exact Nat.le_of_lt (mu_step wf h he)
+  · rw [step_idle he]; exact Nat.le_refl _
+
+/-- every real step costs at least one unit of the measure -/
+theorem realSteps_le {j : Job} (wf : j.WF) {s : State} (h : Inv j s) (l : List (Nat × Nat)) :
+    realSteps j s l + mu j (run j s l) ≤ mu j s := by
+  induction l generalizing s with
+  | nil => simp [realSteps, run]
+  | cons p l ih =>
+    have ih := ih (inv_step wf h p.1 p.2)
+    rw [run_cons]
+    simp only [realSteps]
+    by_cases he : enabled j s p.1 p.2
+    · have := mu_step wf h he
+      simp only [he, if_true]; omega
+    · simp only [he, if_false]
+      rw [step_idle he] at ih ⊢
+      omega
+
+theorem mu_run_le {j : Job} (wf : j.WF) {s : State} (h : Inv j s) (l : List (Nat × Nat)) :
+    mu j (run j s l) ≤ mu j s := by
+  have := realSteps_le wf h l; omega
+
+theorem mu_run_lt {j : Job} (wf : j.WF) {s : State} (h : Inv j s) {b r : Nat}
+    (he : enabled j s b r) (l : List (Nat × Nat)) (hm : (b, r) ∈ l) : mu j (run j s l) < mu j s := by
+  induction l with
+  | nil => cases hm
+  | cons p l ih =>
+    rw [run_cons]
+    by_cases hp : enabled j s p.1 p.2
+    · have h1 := mu_step wf h hp
+      have h2 := mu_run_le wf (inv_step wf h p.1 p.2) l
+      omega
+    · rw [step_idle hp]
+      apply ih
+      rcases List.mem_cons.mp hm with hm | hm
+      · subst hm; exact absurd he hp
+      · exact hm
+
+theorem final_step {j : Job} {s : State} (hf : final j s) (b r : Nat) : step j s b r = s := by
+  apply step_idle
+  intro ⟨hv, hr⟩
+  rw [hf b r hv] at hr; cases hr
+
+theorem final_run {j : Job} {s : State} (hf : final j s) (l : List (Nat × Nat)) : run j s l = s := by
+  induction l with
+  | nil => rfl
+  | cons p l ih => rw [run_cons, final_step hf]; exact ih
+
+/-- a round gives every replica at least one slot -/
+def Round (j : Job) (ρ : List (Nat × Nat)) : Prop := ∀ b r, j.valid b r → (b, r) ∈ ρ
+
+theorem fair_rounds {j : Job} (wf : j.WF) (rounds : List (List (Nat × Nat)))
+    (hr : ∀ ρ ∈ rounds, Round j ρ) {s : State} (h : Inv j s) :
+    final j (run j s rounds.flatten) ∨ mu j (run j s rounds.flatten) + rounds.length ≤ mu j s := by
+  induction rounds generalizing s with
+  | nil => right; simp [run]
+  | cons ρ rounds ih =>
+    rw [List.flatten_cons, run_append]
+    by_cases hf : final j s
+    · left; rw [final_run hf, final_run hf]; exact hf
+    · obtain ⟨b, r, he⟩ := progress wf h hf
+      have hlt := mu_run_lt wf h he ρ (hr ρ (by simp) b r he.1)
+      rcases ih (fun ρ' hρ' => hr ρ' (by simp [hρ'])) (inv_run wf h ρ) with h1 | h1
+      · exact .inl h1
+      · right; simp only [List.length_cons]; omega
+
+theorem mu_zero_final {j : Job} (wf : j.WF) {s : State} (h : Inv j s) (h0 : mu j s = 0) : final j s := by
+  apply Classical.byContradiction
+  intro hf
+  obtain ⟨b, r, he⟩ := progress wf h hf
+  have := mu_step wf h he
+  omega
+
+theorem mem_allPids {j : Job} {b r : Nat} (hv : j.valid b r) : (b, r) ∈ allPids j := by
+  simp only [allPids, List.mem_flatMap, List.mem_map, List.mem_range]
+  exact ⟨b, hv.1, r, hv.2, rfl⟩
+
+theorem finalB_iff {j : Job} {s : State} : finalB j s = true ↔ final j s := by
+  simp only [finalB, List.all_eq_true, List.mem_range, beq_iff_eq, final, Job.valid]
+  constructor
+  · intro h b r hv; exact h b hv.1 r hv.2
+  · intro h b hb r hr; exact h b r ⟨hb, hr⟩
+
+/-! ## sinks -/
+
+theorem published_le_one {j : Job} {s : State} (h : Inv j s) {b r : Nat} (hv : j.valid b r) :
+    (s.proc b r).published ≤ 1 := by
+  rw [h.pub b r hv]; split <;> omega
+
+theorem final_published {j : Job} {s : State} (h : Inv j s) (hf : final j s) {b r : Nat}
+    (hv : j.valid b r) : (s.proc b r).published = 1 := by
+  rw [h.pub b r hv, (status_finished.mp (hf b r hv)).2]; rfl
+
+
+/-! ## conservation of data along every link -/
+
+def ecnt (x : Elem Nat) (l : List (Elem Nat)) : Nat := l.countP fun y => decide (y = x)
+def mcnt (x : Elem Nat) (l : List Msg) : Nat := l.countP fun m => decide (m.elem = x)
+def scnt (c : Nat) (x : Elem Nat) (l : List Send) : Nat :=
+  l.countP fun sd => decide (sd.blk = c ∧ sd.elem = x)
+
+theorem ecnt_append (x : Elem Nat) (l1 l2 : List (Elem Nat)) :
+    ecnt x (l1 ++ l2) = ecnt x l1 + ecnt x l2 := by simp [ecnt, List.countP_append]
+
+theorem scnt_cons (c : Nat) (x : Elem Nat) (sd : Send) (l : List Send) :
+    scnt c x (sd :: l) = scnt c x l + (if sd.blk = c ∧ sd.elem = x then 1 else 0) := by
+  simp [scnt, List.countP_cons]
+
+theorem mcnt_cons (x : Elem Nat) (m : Msg) (l : List Msg) :
+    mcnt x (m :: l) = mcnt x l + (if m.elem = x then 1 else 0) := by
+  simp [mcnt, List.countP_cons]
+
+theorem mcnt_append_one (x : Elem Nat) (l : List Msg) (m : Msg) :
+    mcnt x (l ++ [m]) = mcnt x l + (if m.elem = x then 1 else 0) := by
+  simp [mcnt, List.countP_append, List.countP_cons]
+
+theorem scnt_map (L : List Nat) (hnd : L.Nodup) (g : Nat → Nat) (e x : Elem Nat) (c : Nat) :
+    scnt c x (L.map fun c' => (⟨c', g c', e⟩ : Send)) = if c ∈ L ∧ e = x then 1 else 0 := by
+  induction L with
+  | nil => simp [scnt]
+  | cons y L ih =>
+    have hy := List.nodup_cons.mp hnd
+    rw [List.map_cons, scnt_cons, ih hy.2]
+    by_cases hyc : y = c
+    · subst hyc
+      by_cases hex : e = x <;> simp [hy.1, hex]
+    · have : ¬ c = y := fun h => hyc h.symm
+      simp [hyc, this]
+
+theorem scnt_sendsOf {j : Job} (wf : j.WF) {b c : Nat} (hc : c < j.nblocks) (hp : j.prev c = some b)
+    (r k : Nat) (e x : Elem Nat) (hx : x.isData = true) :
+    scnt c x (sendsOf j b r k e) = if e = x then 1 else 0 := by
+  have hmem : c ∈ j.next b := mem_next.mpr ⟨hc, hp⟩
+  have data : scnt c x ((j.next b).map fun c' => (⟨c', j.route b r c' e k % j.replicas c', e⟩ : Send))
+      = if e = x then 1 else 0 := by
+    have hnd : (j.next b).Nodup := List.nodup_range.filter _
+    rw [scnt_map _ hnd (fun c' => j.route b r c' e k % j.replicas c')]
+    simp [hmem]
+  have ctl : e.isData = false → scnt c x (sendsOf j b r k e) = if e = x then 1 else 0 := by
+    intro he
+    have hne : e ≠ x := by intro h; rw [h, hx] at he; cases he
+    rw [if_neg hne]
+    unfold scnt
+    rw [List.countP_eq_zero]
+    intro sd hsd
+    have := (mem_sendsOf wf hsd).1
+    simp [this, hne]
+  cases e with
+  | item a => exact data
+  | ts a t => exact data
+  | wm t => exact ctl rfl
+  | far => exact ctl rfl
+  | term => exact ctl rfl
+  | flushBatch => exact ctl rfl
+
+theorem scnt_outs {j : Job} (wf : j.WF) {b c : Nat} (hc : c < j.nblocks) (hp : j.prev c = some b)
+    (r k : Nat) (outs : List (Elem Nat)) (hl : outs.length ≤ 1) (x : Elem Nat) (hx : x.isData = true) :
+    scnt c x (outs.flatMap (sendsOf j b r k)) = ecnt x outs := by
+  match outs, hl with
+  | [], _ => rfl
+  | [y], _ =>
+    simp only [List.flatMap_cons, List.flatMap_nil, List.append_nil]
+    rw [scnt_sendsOf wf hc hp r k y x hx]
+    simp [ecnt, List.countP_cons]
+  | _ :: _ :: _, hl => simp at hl
+
+/-- the second invariant: per link `b → c` the data handed to the chains of `b` is what the chains
+    of `c` received + what is in the channels of `c` + what is pending towards `c`; the log of a
+    source is what its script has lost. -/
+structure Inv2 (j : Job) (s : State) : Prop where
+  link : ∀ b c x, c < j.nblocks → j.prev c = some b → x.isData = true →
+    sumTo (j.replicas b) (fun q => ecnt x (s.proc b q).log)
+      = sumTo (j.replicas c) (fun i => ecnt x (s.proc c i).log)
+        + sumTo (j.replicas c) (fun i => mcnt x (s.chan c i))
+        + sumTo (j.replicas b) (fun q => scnt c x (s.proc b q).pending)
+  srcLog : ∀ b r, j.prev b = none → (s.proc b r).log ++ (s.proc b r).script = j.input b r ++ [.far, .term]
+
+theorem inv2_init (j : Job) : Inv2 j (init j) := by
+  constructor
+  · intro b c x _ _ _
+    simp only [init, initProc, ecnt, mcnt, scnt, List.countP_nil]
+    rw [sumTo_eq_zero (fun _ _ => rfl), sumTo_eq_zero (fun _ _ => rfl)]
+  · intro b r hp
+    simp [init, initProc, hp]
+
+theorem sumTo_add_at {n : Nat} {f g : Nat → Nat} {i d : Nat} (hi : i < n)
+    (h : ∀ k, k < n → k ≠ i → g k = f k) (hd : g i = f i + d) : sumTo n g = sumTo n f + d := by
+  have := sumTo_change hi h; omega
+
+theorem sumTo_sub_at {n : Nat} {f g : Nat → Nat} {i d : Nat} (hi : i < n)
+    (h : ∀ k, k < n → k ≠ i → g k = f k) (hd : g i + d = f i) : sumTo n g + d = sumTo n f := by
+  have := sumTo_change hi h; omega
+
+theorem inv2_step {j : Job} (wf : j.WF) {s : State} (h : Inv j s) (h2 : Inv2 j s) (b0 r0 : Nat) :
+    Inv2 j (step j s b0 r0) := by
+  have hc := step_case j s b0 r0
+  generalize step j s b0 r0 = s' at hc
+  cases hc with
+  | idle _ => exact h2
+  | send sd rest _ hv hp hl =>
+    obtain ⟨t1, t2, t3⟩ := h.tgtOk b0 r0 sd (by rw [hp]; simp)
+    have hlog : ∀ b' r', ((sendState s b0 r0 sd rest).proc b' r').log = (s.proc b' r').log := by
+      intro b' r'
+      by_cases heq : b' = b0 ∧ r' = r0
+      · obtain ⟨rfl, rfl⟩ := heq; rw [send_proc_self]
+      · rw [send_proc_other heq]
+    constructor
+    · intro b c x hcv hpc hx
+      have hl := h2.link b c x hcv hpc hx
+      simp only [hlog]
+      by_cases hcc : sd.blk = c
+      · subst hcc
+        have hb : b = b0 := by rw [t3] at hpc; cases hpc; rfl
+        subst hb
+        have e1 := sumTo_add_at (n := j.replicas sd.blk) (i := sd.rep)
+          (f := fun i => mcnt x (s.chan sd.blk i))
+          (g := fun i => mcnt x ((sendState s b r0 sd rest).chan sd.blk i))
+          (d := if sd.elem = x then 1 else 0) t2
+          (by intro k _ hk; rw [send_chan_other (fun hh => hk hh.2)])
+          (by rw [send_chan_self, mcnt_append_one])
+        have e2 := sumTo_sub_at (n := j.replicas b) (i := r0)
+          (f := fun q => scnt sd.blk x (s.proc b q).pending)
+          (g := fun q => scnt sd.blk x ((sendState s b r0 sd rest).proc b q).pending)
+          (d := if sd.elem = x then 1 else 0) hv.2
+          (by intro k _ hk; rw [send_proc_other (fun hh => hk hh.2)])
+          (by rw [send_proc_self, hp, scnt_cons]; simp)
+        omega
+      · have e1 : sumTo (j.replicas c) (fun i => mcnt x ((sendState s b0 r0 sd rest).chan c i))
+            = sumTo (j.replicas c) (fun i => mcnt x (s.chan c i)) :=
+          sumTo_congr (fun i _ => by rw [send_chan_other (fun hh => hcc hh.1.symm)])
+        have e2 : sumTo (j.replicas b) (fun q => scnt c x ((sendState s b0 r0 sd rest).proc b q).pending)
+            = sumTo (j.replicas b) (fun q => scnt c x (s.proc b q).pending) := by
+          apply sumTo_congr
+          intro q _
+          by_cases heq : b = b0 ∧ q = r0
+          · obtain ⟨rfl, rfl⟩ := heq
+            rw [send_proc_self, hp, scnt_cons]
+            simp [hcc]
+          · rw [send_proc_other heq]
+        rw [e1, e2]; exact hl
+    · intro b r hpb
+      by_cases heq : b = b0 ∧ r = r0
+      · obtain ⟨rfl, rfl⟩ := heq; rw [send_proc_self]; exact h2.srcLog b r hpb
+      · rw [send_proc_other heq]; exact h2.srcLog b r hpb
+  | src e es _ hv hp hpr hs =>
+    have hproc : ∀ b' r', ¬ (b' = b0 ∧ r' = r0) → (srcState j s b0 r0 e es).proc b' r' = s.proc b' r' :=
+      fun b' r' hne => by simp only [srcState, set2_other _ _ _ _ _ _ hne]
+    have hself : (srcState j s b0 r0 e es).proc b0 r0
+        = emit j b0 r0 { s.proc b0 r0 with script := es } [e] := by simp only [srcState, set2_same]
+    constructor
+    · intro b c x hcv hpc hx
+      have hl := h2.link b c x hcv hpc hx
+      have hcne : c ≠ b0 := by intro hh; subst hh; rw [hpr] at hpc; cases hpc
+      have e0 : sumTo (j.replicas c) (fun i => ecnt x ((srcState j s b0 r0 e es).proc c i).log)
+          = sumTo (j.replicas c) (fun i => ecnt x (s.proc c i).log) :=
+        sumTo_congr (fun i _ => by rw [hproc c i (fun hh => hcne hh.1)])
+      have ech : ∀ i, (srcState j s b0 r0 e es).chan c i = s.chan c i := fun _ => rfl
+      simp only [ech]
+      rw [e0]
+      by_cases hb : b = b0
+      · subst hb
+        have e1 := sumTo_add_at (n := j.replicas b) (i := r0)
+          (f := fun q => ecnt x (s.proc b q).log)
+          (g := fun q => ecnt x ((srcState j s b r0 e es).proc b q).log)
+          (d := if e = x then 1 else 0) hv.2
+          (by intro k _ hk; rw [hproc b k (fun hh => hk hh.2)])
+          (by rw [hself]; simp [emit, ecnt, List.countP_append, List.countP_cons])
+        have e2 := sumTo_add_at (n := j.replicas b) (i := r0)
+          (f := fun q => scnt c x (s.proc b q).pending)
+          (g := fun q => scnt c x ((srcState j s b r0 e es).proc b q).pending)
+          (d := if e = x then 1 else 0) hv.2
+          (by intro k _ hk; rw [hproc b k (fun hh => hk hh.2)])
+          (by
+            rw [hself, hp]
+            simp only [emit, List.flatMap_cons, List.flatMap_nil, List.append_nil]
+            rw [scnt_sendsOf wf hcv hpc _ _ e x hx]; simp [scnt])
+        omega
+      · have e1 : sumTo (j.replicas b) (fun q => ecnt x ((srcState j s b0 r0 e es).proc b q).log)
+            = sumTo (j.replicas b) (fun q => ecnt x (s.proc b q).log) :=
+          sumTo_congr (fun q _ => by rw [hproc b q (fun hh => hb hh.1)])
+        have e2 : sumTo (j.replicas b) (fun q => scnt c x ((srcState j s b0 r0 e es).proc b q).pending)
+            = sumTo (j.replicas b) (fun q => scnt c x (s.proc b q).pending) :=
+          sumTo_congr (fun q _ => by rw [hproc b q (fun hh => hb hh.1)])
+        rw [e1, e2]; exact hl
+    · intro b r hpb
+      by_cases heq : b = b0 ∧ r = r0
+      · obtain ⟨rfl, rfl⟩ := heq
+        rw [hself]
+        have := h2.srcLog b r hpb
+        rw [hs] at this
+        simp only [emit]
+        rw [← this]; simp
+      · rw [hproc b r heq]; exact h2.srcLog b r hpb
+  | recv m ms pb0 _ hv hp hpr hmt hch =>
+    have hproc : ∀ b' r', ¬ (b' = b0 ∧ r' = r0) → (recvState j s b0 r0 m ms).proc b' r' = s.proc b' r' :=
+      fun b' r' hne => by simp only [recvState, set2_other _ _ _ _ _ _ hne]
+    have hchan : ∀ b' r', ¬ (b' = b0 ∧ r' = r0) → (recvState j s b0 r0 m ms).chan b' r' = s.chan b' r' :=
+      fun b' r' hne => by simp only [recvState, set2_other _ _ _ _ _ _ hne]
+    have hchs : (recvState j s b0 r0 m ms).chan b0 r0 = ms := by simp only [recvState, set2_same]
+    obtain ⟨hS1, _, _, _, hS5, hS6⟩ := start_step_cases (s.proc b0 r0).start m.sender m.elem hmt
+    have hself : (recvState j s b0 r0 m ms).proc b0 r0 = emit j b0 r0
+        { s.proc b0 r0 with start := (Start.step (s.proc b0 r0).start (.elem m.sender m.elem)).1 }
+        (Start.step (s.proc b0 r0).start (.elem m.sender m.elem)).2 := by
+      simp only [recvState, set2_same]
+    have houts : ∀ x : Elem Nat, x.isData = true →
+        ecnt x (Start.step (s.proc b0 r0).start (.elem m.sender m.elem)).2 = if m.elem = x then 1 else 0 := by
+      intro x hx
+      cases hd : m.elem.isData with
+      | true => rw [hS5 hd]; simp [ecnt, List.countP_cons]
+      | false =>
+        have hne : m.elem ≠ x := by intro hh; rw [hh, hx] at hd; cases hd
+        rw [if_neg hne]
+        unfold ecnt
+        rw [List.countP_eq_zero]
+        intro y hy
+        have := hS6 hd y hy
+        simp only [decide_eq_true_eq]
+        intro hh; rw [hh, hx] at this; cases this
+    constructor
+    · intro b c x hcv hpc hx
+      have hl := h2.link b c x hcv hpc hx
+      have hlogself : ecnt x ((recvState j s b0 r0 m ms).proc b0 r0).log
+          = ecnt x (s.proc b0 r0).log + (if m.elem = x then 1 else 0) := by
+        rw [hself]; simp only [emit]; rw [ecnt_append, houts x hx]
+      by_cases hc0 : c = b0
+      · subst hc0
+        have hb : b = pb0 := by rw [hpr] at hpc; cases hpc; rfl
+        subst hb
+        have hbne : b ≠ c := by have := wf.topo c b hcv hpc; omega
+        have e0 := sumTo_add_at (n := j.replicas c) (i := r0)
+          (f := fun i => ecnt x (s.proc c i).log)
+          (g := fun i => ecnt x ((recvState j s c r0 m ms).proc c i).log)
+          (d := if m.elem = x then 1 else 0) hv.2
+          (by intro k _ hk; rw [hproc c k (fun hh => hk hh.2)])
+          hlogself
+        have e1 := sumTo_sub_at (n := j.replicas c) (i := r0)
+          (f := fun i => mcnt x (s.chan c i))
+          (g := fun i => mcnt x ((recvState j s c r0 m ms).chan c i))
+          (d := if m.elem = x then 1 else 0) hv.2
+          (by intro k _ hk; rw [hchan c k (fun hh => hk hh.2)])
+          (by rw [hchs, hch, mcnt_cons])
+        have e2 : sumTo (j.replicas b) (fun q => ecnt x ((recvState j s c r0 m ms).proc b q).log)
+            = sumTo (j.replicas b) (fun q => ecnt x (s.proc b q).log) :=
+          sumTo_congr (fun q _ => by rw [hproc b q (fun hh => hbne hh.1)])
+        have e3 : sumTo (j.replicas b) (fun q => scnt c x ((recvState j s c r0 m ms).proc b q).pending)
+            = sumTo (j.replicas b) (fun q => scnt c x (s.proc b q).pending) :=
+          sumTo_congr (fun q _ => by rw [hproc b q (fun hh => hbne hh.1)])
+        omega
+      · have e0 : sumTo (j.replicas c) (fun i => ecnt x ((recvState j s b0 r0 m ms).proc c i).log)
+            = sumTo (j.replicas c) (fun i => ecnt x (s.proc c i).log) :=
+          sumTo_congr (fun i _ => by rw [hproc c i (fun hh => hc0 hh.1)])
+        have e1 : sumTo (j.replicas c) (fun i => mcnt x ((recvState j s b0 r0 m ms).chan c i))
+            = sumTo (j.replicas c) (fun i => mcnt x (s.chan c i)) :=
+          sumTo_congr (fun i _ => by rw [hchan c i (fun hh => hc0 hh.1)])
+        by_cases hb : b = b0
+        · subst hb
+          have e2 := sumTo_add_at (n := j.replicas b) (i := r0)
+            (f := fun q => ecnt x (s.proc b q).log)
+            (g := fun q => ecnt x ((recvState j s b r0 m ms).proc b q).log)
+            (d := if m.elem = x then 1 else 0) hv.2
+            (by intro k _ hk; rw [hproc b k (fun hh => hk hh.2)])
+            hlogself
+          have e3 := sumTo_add_at (n := j.replicas b) (i := r0)
+            (f := fun q => scnt c x (s.proc b q).pending)
+            (g := fun q => scnt c x ((recvState j s b r0 m ms).proc b q).pending)
+            (d := if m.elem = x then 1 else 0) hv.2
+            (by intro k _ hk; rw [hproc b k (fun hh => hk hh.2)])
+            (by
+              rw [hself, hp]
+              simp only [emit]
+              rw [scnt_outs wf hcv hpc _ _ _ hS1 x hx, houts x hx]; simp [scnt])
+          omega
+        · have e2 : sumTo (j.replicas b) (fun q => ecnt x ((recvState j s b0 r0 m ms).proc b q).log)
+              = sumTo (j.replicas b) (fun q => ecnt x (s.proc b q).log) :=
+            sumTo_congr (fun q _ => by rw [hproc b q (fun hh => hb hh.1)])
+          have e3 : sumTo (j.replicas b) (fun q => scnt c x ((recvState j s b0 r0 m ms).proc b q).pending)
+              = sumTo (j.replicas b) (fun q => scnt c x (s.proc b q).pending) :=
+            sumTo_congr (fun q _ => by rw [hproc b q (fun hh => hb hh.1)])
+          rw [e0, e1, e2, e3]; exact hl
+    · intro b r hpb
+      by_cases heq : b = b0 ∧ r = r0
+      · obtain ⟨rfl, rfl⟩ := heq; rw [hpr] at hpb; cases hpb
+      · rw [hproc b r heq]; exact h2.srcLog b r hpb
+
+theorem inv2_reachable {j : Job} (wf : j.WF) {s : State} (h : Reachable j s) : Inv2 j s := by
+  induction h with
+  | init => exact inv2_init j
+  | step b r hr ih => exact inv2_step wf (inv_reachable wf hr) ih b r
+
+
+/-! ## conservation in the final state -/
+
+theorem perm_of_ecnt {l1 l2 : List (Elem Nat)} (h : ∀ x, ecnt x l1 = ecnt x l2) : l1.Perm l2 := by
+  rw [@List.perm_iff_count _ instBEqOfDecidableEq _ l1 l2]
+  intro x
+  exact h x
+
+theorem ecnt_flatMap_range (x : Elem Nat) (n : Nat) (f : Nat → List (Elem Nat)) :
+    ecnt x ((List.range n).flatMap f) = sumTo n (fun q => ecnt x (f q)) := by
+  induction n with
+  | zero => rfl
+  | succ n ih =>
+    rw [List.range_succ, List.flatMap_append, ecnt_append, ih]
+    simp [sumTo]
+
+theorem ecnt_dataOf (x : Elem Nat) (l : List (Elem Nat)) :
+    ecnt x (dataOf l) = if x.isData then ecnt x l else 0 := by
+  induction l with
+  | nil => simp [dataOf, ecnt]
+  | cons y l ih =>
+    unfold dataOf ecnt at ih ⊢
+    by_cases hy : y.isData = true
+    · rw [List.filter_cons_of_pos hy, List.countP_cons, List.countP_cons, ih]
+      by_cases hx : x.isData = true
+      · simp [hx]
+      · have hyx : ¬ y = x := by intro h; rw [h] at hy; exact hx hy
+        simp [hx, hyx]
+    · rw [List.filter_cons_of_neg hy, List.countP_cons, ih]
+      by_cases hyx : y = x
+      · subst hyx; simp [hy]
+      · simp [hyx]
+
+theorem flatMap_congr' {β γ : Type} (l : List β) (f g : β → List γ) (h : ∀ x ∈ l, f x = g x) :
+    l.flatMap f = l.flatMap g := by
+  induction l with
+  | nil => rfl
+  | cons y l ih =>
+    rw [List.flatMap_cons, List.flatMap_cons, h y (by simp), ih (fun x hx => h x (by simp [hx]))]
+
+/-- **conservation along one link** in the final state -/
+theorem final_link_perm {j : Job} (wf : j.WF) {s : State} (h : Inv j s) (h2 : Inv2 j s)
+    (hf : final j s) {b c : Nat} (hc : c < j.nblocks) (hp : j.prev c = some b) :
+    (dataOf (blockLog j s c)).Perm (dataOf (blockLog j s b)) := by
+  apply perm_of_ecnt
+  intro x
+  rw [ecnt_dataOf, ecnt_dataOf]
+  cases hx : x.isData with
+  | false => rfl
+  | true =>
+    simp only [if_true]
+    unfold blockLog
+    rw [ecnt_flatMap_range, ecnt_flatMap_range]
+    have hl := h2.link b c x hc hp hx
+    have hb : b < j.nblocks := by have := wf.topo c b hc hp; omega
+    have e1 : sumTo (j.replicas c) (fun i => mcnt x (s.chan c i)) = 0 := by
+      apply sumTo_eq_zero
+      intro i hi
+      rw [done_chan_empty h ⟨hc, hi⟩ (status_finished.mp (hf c i ⟨hc, hi⟩)).2]; rfl
+    have e2 : sumTo (j.replicas b) (fun q => scnt c x (s.proc b q).pending) = 0 := by
+      apply sumTo_eq_zero
+      intro q hq
+      rw [(status_finished.mp (hf b q ⟨hb, hq⟩)).1]; rfl
+    omega
+
+/-- `a` is `b` or an ancestor of `b` -/
+inductive Upstream (j : Job) : Nat → Nat → Prop where
+  | refl (a : Nat) : Upstream j a a
+  | step {a b c : Nat} : j.prev c = some b → Upstream j a b → Upstream j a c
+
+theorem dataOf_flatMap (n : Nat) (f : Nat → List (Elem Nat)) :
+    dataOf ((List.range n).flatMap f) = (List.range n).flatMap fun r => dataOf (f r) := by
+  unfold dataOf
+  rw [List.filter_flatMap]
+
+theorem final_source_log {j : Job} {s : State} (h2 : Inv2 j s) (hf : final j s) {a : Nat}
+    (ha : a < j.nblocks) (hp : j.prev a = none) :
+    dataOf (blockLog j s a) = (List.range (j.replicas a)).flatMap fun r => dataOf (j.input a r) := by
+  unfold blockLog
+  rw [dataOf_flatMap]
+  apply flatMap_congr'
+  intro r hr
+  have hd := (status_finished.mp (hf a r ⟨ha, List.mem_range.mp hr⟩)).2
+  simp only [done, hp, List.isEmpty_iff] at hd
+  have := h2.srcLog a r hp
+  rw [hd, List.append_nil] at this
+  rw [this]
+  simp [dataOf, Elem.isData]
+
+theorem final_conservation {j : Job} (wf : j.WF) {s : State} (h : Inv j s) (h2 : Inv2 j s)
+    (hf : final j s) (c : Nat) (hc : c < j.nblocks) :
+    ∃ a, a < j.nblocks ∧ j.prev a = none ∧ Upstream j a c ∧
+      (dataOf (blockLog j s c)).Perm
+        ((List.range (j.replicas a)).flatMap fun r => dataOf (j.input a r)) := by
+  induction c using Nat.strongRecOn with
+  | _ c ih =>
+    cases hp : j.prev c with
+    | none =>
+      exact ⟨c, hc, hp, .refl c, by rw [final_source_log h2 hf hc hp]⟩
+    | some b =>
+      have hb := wf.topo c b hc hp
+      obtain ⟨a, ha, hpa, hup, hperm⟩ := ih b hb (by omega)
+      exact ⟨a, ha, hpa, .step hp hup, (final_link_perm wf h h2 hf hc hp).trans hperm⟩
+
+
 end Noir.NetSim
